@@ -21,7 +21,7 @@ import gcgen
 
 LEVEL = "proof"
 PROFILE = dict(blob=3, chunked=2, mount=1.5, image=5, index=2.5, artifact=2, mread=2, bread=1.5, tags=1, refs=1,
-               mdel=1.5, bdel=0.5, sess=0.8, bad=0.5, interrupt=0)
+               mdel=1.5, bdel=0.5, sess=0.8, bad=0.5, interrupt=0, retag=1.2)
 REPOS = ["a", "a/b", "c1"]
 
 
@@ -61,7 +61,7 @@ def make_cases(ctx, first):
         variant = i % 4
         # re-opening is compared under the default policy (Close collects every repository: with the default grace period
         # it removes nothing of these histories); collections under the other policies are part of the other variants
-        pol = dict() if variant in (0, 2) else rng.choice([dict(), dict(untagged=True), dict(grace_ms=-1), dict(grace_ms=-1), dict(dangling=True)])
+        pol = dict() if variant in (0, 2) else rng.choice([dict(), dict(untagged=True), dict(grace_ms=-1), dict(grace_ms=-1), dict(dangling=True), dict(untagged=True, grace_ms=-1), dict(untagged=True, grace_ms=-1)])
         conf = mkconf(store="dir", withsubj=False, **pol)
         if (i // 4) % 5 == 3:
             conf["referrer"] = False          # (the referrers API switched off: the layout does not say so, the configuration does)
